@@ -961,8 +961,9 @@ func trLoop(v *ast.RangeStmt, en env, next cont) string {
 	}
 	sig += " → " + atom2(retType)
 	pats := strings.Join(binders, ", ")
-	def := fmt.Sprintf("let rec %s : %s\n| [], %s => %s\n| %s :: %s, %s => %s", goName, sig, pats, base, xn, rest, pats, body)
-	return wrapLets(lets, "("+def+"\n"+goName+" "+atom(l.lean)+" "+strings.Join(inits, " ")+")")
+	lv := fresh("l")
+	def := fmt.Sprintf("let rec %s : %s := fun %s %s => (match %s, %s with\n| [], %s => %s\n| %s :: %s, %s => %s)", goName, sig, lv, strings.Join(binders, " "), lv, pats, pats, base, xn, rest, pats, body)
+	return wrapLets(lets, "("+def+";\n"+goName+" "+atom(l.lean)+" "+strings.Join(inits, " ")+")")
 }
 
 func atom2(s string) string {
@@ -1399,7 +1400,7 @@ func wrapLets(lets []string, body string) string {
 	if len(lets) == 0 {
 		return body
 	}
-	return "(" + strings.Join(lets, "\n") + "\n" + body + ")"
+	return "(" + strings.Join(lets, ";\n") + ";\n" + body + ")"
 }
 
 // ---------------------------------------------------------------- statements
@@ -2094,6 +2095,9 @@ func translate(sp *fnSpec, files map[string]*ast.File, srcs map[string][]byte) (
 		fail(fd.Body.Rbrace, "control reaches the end of a function that returns values")
 		return ""
 	})
+	// one line: Lean's application syntax is sensitive to the column of an argument that follows a
+	// line break, and the generated terms are not laid out by column
+	body = strings.ReplaceAll(body, "\n", " ")
 	return fmt.Sprintf("/-- translated from `%s` (%s) -/\ndef %s %s : %s :=\n%s\n", sp.goName, sp.file, sp.leanName, strings.Join(binders, " "), strings.Join(retTypes, " × "), body), nil
 }
 
